@@ -1350,4 +1350,123 @@ theorem src_ss_readline_eq_model (lfuel : Nat) (st : SS) (s : SStr) (h : RelS st
 def demoModL : SStr := ⟨⟨encode ['é', Char.ofNat 12, 'b', Char.ofNat 10, 'c'], 0⟩, {}, 0, false, 100, 2⟩
 example : rlAllOk demoModL = true ∧ demoModL.readline.1 = ['é', Char.ofNat 12, 'b', Char.ofNat 10] := by decide
 
+/-- the model's object right after the content moved to the temporary file, before the position is re-established -/
+def SStr.moved (s : SStr) : SStr :=
+  { s with st := (File.empty : File CU).write s.st.data, rd := Reader.reset, rolled := true }
+
+theorem SStr.rollover_unrolled (s : SStr) (h : s.rolled = false) : s.rollover = s.moved.seek s.tell := by
+  simp [SStr.rollover, h, SStr.moved]
+
+/-- what `rollover()` needs of the model state: the code-point seek back to `_tell` in the new file is a good traversal -/
+def rollOk (s : SStr) : Bool := s.rolled || travOk (s.tell + 1) (s.moved.bseek 0) 0 s.tell
+
+theorem CFile_write_newReal (b : List CU) :
+    CFile.write CFile.newReal b = (.ok (), ⟨(File.empty : File CU).write b, {}, false, true⟩) := by
+  cases b <;> simp [CFile.write, CFile.newReal, File.write, File.empty]
+
+/-- `rollover()`: `SStr.rollover` — nothing on a temporary file; else the bytes go to a new codec file over a temporary
+    file, the old one is closed, and the position is re-established by a code-point `seek(_tell)` -/
+theorem src_ss_rollover_eq_model (lfuel : Nat) (st : SS) (s : SStr) (h : RelS st s) (hok : rollOk s = true)
+    (hk : s.tell + 1 ≤ lfuel) :
+    (SpooledStringIO.rollover lfuel st).1 = .ok () ∧ RelS (SpooledStringIO.rollover lfuel st).2 s.rollover := by
+  by_cases hr : s.rolled = true
+  · have hreal : st.buffer.real = true := by rw [h.real]; exact hr
+    rw [src_ss_rollover_rolled lfuel st hreal]
+    have : s.rollover = s := by simp [SStr.rollover, hr]
+    rw [this]
+    exact ⟨rfl, h⟩
+  · have hr' : s.rolled = false := by simpa using hr
+    simp only [rollOk, hr', Bool.false_or] at hok
+    rw [SStr.rollover_unrolled s hr']
+    obtain ⟨h1, h2, h3, h4, h5, h6, h7⟩ := h
+    rcases st with ⟨⟨bst, brd, bcl, brl⟩, tl, ms, dir, ch⟩
+    simp only at h1 h2 h3 h4 h5 h6 h7
+    subst h1 h2 h3 h5 h6 h7
+    rw [hr'] at h4
+    subst h4
+    have hm : RelS (⟨⟨(File.empty : File CU).write s.st.data, {}, false, true⟩, (s.tell : Int), (s.maxSize : Int), dir,
+        (s.chunk : Int)⟩ : SS) s.moved := ⟨rfl, rfl, rfl, rfl, rfl, rfl, rfl⟩
+    have hsk := src_ss_seek0_eq_model lfuel _ s.moved s.tell hm hok hk
+    rcases hseek : SpooledStringIO.seek0 lfuel (⟨⟨(File.empty : File CU).write s.st.data, {}, false, true⟩, (s.tell : Int),
+        (s.maxSize : Int), dir, (s.chunk : Int)⟩ : SS) (s.tell : Int) with ⟨r, st2⟩
+    rw [hseek] at hsk
+    simp only at hsk
+    simp [SpooledStringIO.rollover, SpooledStringIO.rollover.body, src_ss_rolled_eq_model, CFile.getvalue,
+      CFile_write_newReal, CFile.close, hseek, hsk.1, hsk.2]
+
+theorem File_write_nil_cu (f : File CU) (h : InRange f) : f.write [] = f := by
+  unfold InRange at h
+  cases f with
+  | mk d p => simp only [File.write, List.append_nil, List.length_nil, Nat.add_zero] at *
+              rw [Nat.sub_eq_zero_of_le h]; simp
+
+/-- `buffer.write(bytes)` on an open codec file whose stream position is inside the data: the model's `File.write` -/
+theorem CFile_write_inRange (o : CFile) (b : List CU) (hc : o.closed = false) (hin : InRange o.st) :
+    CFile.write o b = (.ok (), { o with st := o.st.write b }) := by
+  rcases o with ⟨ost, ord, ocl, orl⟩
+  simp only at hc hin
+  subst hc
+  unfold CFile.write
+  by_cases hb : b = []
+  · subst hb
+    simp [File_write_nil_cu _ hin]
+  · have hb' : b.isEmpty = false := by simpa using hb
+    have hlt : ¬ (ost.data.length < ost.pos) := by unfold InRange at hin; omega
+    simp [hb', hlt]
+
+/-- what `write(cs)` needs of the model state: if the write rolls the object over, the rollover's seek is a good
+    traversal; the stream position the bytes go to is inside the data (the statement's domain: appending writes) -/
+def writeOk (s : SStr) (cs : List Char) : Prop :=
+  if s.st.pos + (encode cs).length ≥ s.maxSize then rollOk s = true ∧ InRange s.rollover.st else InRange s.st
+
+/-- `write(cs)`: `SStr.write` — the rollover decision `buffer.tell() + len(cs.encode('utf-8')) >= max_size`, then the
+    bytes go to the stream and `_tell` advances by the number of code points -/
+theorem src_ss_write_eq_model (lfuel : Nat) (st : SS) (s : SStr) (cs : List Char) (h : RelS st s)
+    (hok : writeOk s cs) (hk : s.tell + 1 ≤ lfuel) :
+    (SpooledStringIO.write lfuel st cs).1 = .ok () ∧ RelS (SpooledStringIO.write lfuel st cs).2 (s.write cs) := by
+  unfold writeOk at hok
+  by_cases hd : s.st.pos + (encode cs).length ≥ s.maxSize
+  · rw [if_pos hd] at hok
+    have hro := src_ss_rollover_eq_model lfuel st s h hok.1 hk
+    rcases hroll : SpooledStringIO.rollover lfuel st with ⟨r, st1⟩
+    rw [hroll] at hro
+    simp only at hro
+    obtain ⟨hro1, hro2⟩ := hro
+    subst hro1
+    have hw := CFile_write_inRange st1.buffer (encode cs) hro2.opened (by rw [hro2.stream]; exact hok.2)
+    obtain ⟨h1, h2, h3, h4, h5, h6, h7⟩ := h
+    rcases st with ⟨⟨bst, brd, bcl, brl⟩, tl, ms, dir, ch⟩
+    simp only at h1 h2 h3 h4 h5 h6 h7
+    subst h1 h2 h3 h4 h5 h6 h7
+    have hdI : (s.maxSize : Int) ≤ (s.st.pos : Int) + ((encode cs).length : Int) := by omega
+    refine ⟨?_, ?_⟩
+    · simp [SpooledStringIO.write, SpooledStringIO.write.body, src_ss_checkClosed_eq_model, src_ss_tell_eq_model,
+        CFile.tell, hdI, hroll, hw, PyRt.len]
+    · constructor <;>
+        simp [SpooledStringIO.write, SpooledStringIO.write.body, src_ss_checkClosed_eq_model, src_ss_tell_eq_model,
+          CFile.tell, hdI, hroll, hw, SStr.write, hd, hro2.stream, hro2.reader, hro2.real, hro2.max, hro2.chunk,
+          hro2.opened, PyRt.len]
+  · rw [if_neg hd] at hok
+    have hw := CFile_write_inRange st.buffer (encode cs) h.opened (by rw [h.stream]; exact hok)
+    obtain ⟨h1, h2, h3, h4, h5, h6, h7⟩ := h
+    rcases st with ⟨⟨bst, brd, bcl, brl⟩, tl, ms, dir, ch⟩
+    simp only at h1 h2 h3 h4 h5 h6 h7
+    subst h1 h2 h3 h4 h5 h6 h7
+    have hdI : ¬ ((s.maxSize : Int) ≤ (s.st.pos : Int) + ((encode cs).length : Int)) := by omega
+    simp only at hw
+    refine ⟨?_, ?_⟩
+    · simp [SpooledStringIO.write, SpooledStringIO.write.body, src_ss_checkClosed_eq_model, src_ss_tell_eq_model,
+        CFile.tell, hdI, hw, PyRt.len]
+    · constructor <;>
+        simp [SpooledStringIO.write, SpooledStringIO.write.body, src_ss_checkClosed_eq_model, src_ss_tell_eq_model,
+          CFile.tell, hdI, hw, SStr.write, hd, PyRt.len]
+
+/-- non-vacuity: the hypotheses of the `rollover` / `write` ties hold of an object holding multi-byte text, for a write
+    that stays in memory (`max_size` 100) and for one that rolls the object over (`max_size` 4) -/
+def demoModW : SStr := ⟨⟨encode ['a', 'é'], 3⟩, {}, 2, false, 4, 2⟩
+example : rollOk demoModS = true ∧ (demoModS.rollover).rolled = true := by decide
+example : writeOk demoModS ['b'] ∧ writeOk demoModW ['b'] ∧ (demoModW.write ['b']).rolled = true ∧
+    (demoModS.write ['b']).rolled = false := by
+  unfold writeOk InRange; decide
+
 end C18
